@@ -5,7 +5,7 @@ from .. import core, dkggen
 ID = "C08"
 MODULE = "DrandProofs.C08"
 THEOREMS = ["Drand.DKG." + t for t in [
-    "tie_transition_table", "tie_terminal", "tie_proposal_phase", "tie_process_steps_atomic", "c08_legal", "c08_error_no_write",
+    "tie_transition_table", "tie_terminal", "tie_proposal_phase", "tie_process_steps_atomic", "tie_validate_epoch", "c08_left_epoch_increases", "c08_legal", "c08_error_no_write",
     "c08_finished_only_by_completion", "c08_completion_whole", "c08_epoch_inv_step", "c08_finished_monotone",
     "c08_epoch_inv_run", "c08_retry_same_epoch", "c08_rejects_stale_epoch", "c08_rejects_same_epoch_unless_terminal",
     "c08_rejects_epoch_jump", "c08_rejects_expired", "c08_rejects_threshold_high", "c08_rejects_threshold_low",
